@@ -2,7 +2,7 @@
 import linecache
 from typing import Any, Dict, List
 
-from icv.harness import Runtime, ErrInst, ErrInstB
+from icv.harness import Runtime, ErrInst, ErrInstB, ErrInstF
 
 import os as _os
 
@@ -81,7 +81,11 @@ def _cond_def(prog: dict, c: int, role: str, owner: int, params: List[str], inde
             lines.append("{}errf_{} = H.wrapped(errf_{})".format(indent, c, c))
     if con["err"] == "class":
         lines.append("{}class ErrClass_{}({}):".format(indent, c, "BaseException" if prog.get("errbase") else "Exception"))
-        lines.append("{}    pass".format(indent))
+        if prog.get("errfalsy"):
+            lines.append("{}    def __len__(self):".format(indent))
+            lines.append("{}        return 0".format(indent))
+        else:
+            lines.append("{}    pass".format(indent))
         lines.append("{}H.err_class[{}] = ErrClass_{}".format(indent, c, c))
     return lines
 
@@ -309,7 +313,7 @@ def gen_source(prog: dict) -> str:
 def _mk_inst(rt: Runtime):  # type: ignore
     def mk(c: int) -> BaseException:
         if c not in rt.err_inst:
-            e = (ErrInstB if rt.prog.get("errbase") else ErrInst)("inst{}".format(c))
+            e = (ErrInstF if rt.prog.get("errfalsy") else ErrInstB if rt.prog.get("errbase") else ErrInst)("inst{}".format(c))
             e.c = c  # type: ignore
             rt.err_inst[c] = e
         return rt.err_inst[c]
